@@ -1334,7 +1334,7 @@ class Server:
             else:
                 file_mode = mode
             file_out = connection.path_io.open(real_path, mode=file_mode)
-            async with file_out, stream:
+            async with stream, file_out:
                 if restart_offset:
                     await file_out.seek(restart_offset)
                 async for data in stream.iter_by_block(connection.block_size):
@@ -1376,7 +1376,7 @@ class Server:
             stream = connection.data_connection
             del connection.data_connection
             file_in = connection.path_io.open(real_path, mode="rb")
-            async with file_in, stream:
+            async with stream, file_in:
                 if restart_offset:
                     await file_in.seek(restart_offset)
                 async for data in file_in.iter_by_block(connection.block_size):
